@@ -596,6 +596,11 @@ def compute_mro(cls:'Class') -> Sequence[Union['Class', str]]:
                 else:
                     # Only re-resolve the base object if the base was None.
                     resolved_base = o.parent.resolveName(str_base)
+                    if not isinstance(resolved_base, Class):
+                        # The class might have been moved (re-exported) since its definition was visited, 
+                        # in which case the base name can't be resolved from the new parent:
+                        # try the name as it was expanded in the context of the definition.
+                        resolved_base = o.system.objForFullName(o._initialbases[i])
                     if isinstance(resolved_base, Class):
                         base = resolved_base
                         finalbaseobjects.append(base)
